@@ -101,9 +101,12 @@ def run_history(host, events):
                 if not rig.conn.connected:
                     continue
                 if kind == "s1f13":
+                    accept = ev[1] if len(ev) > 1 else True
+                    # what the application answers (on_commack_requested is the documented place to deny a request)
+                    h.on_commack_requested = (lambda: 0) if accept else (lambda: 1)
                     body = rig.sf.function(1, 13)([] if not host else ["peer", "1.0"]).encode()
                     rig.conn.feed(gemrig.data_frame(1, 13, rig.next_system(), body, True))
-                    lit = "YInS1F13"
+                    lit = f"(YInS1F13 {L.bool_(accept)})"
                 elif kind == "s1f14":
                     _, commack, readable = ev
                     body = rig.sf.function(1, 14)({"COMMACK": commack, "MDLN": []}).encode() if readable else b"\x01"
@@ -173,7 +176,7 @@ def rand_events(rnd, n):
         elif c < 0.36:
             evs.append(("disable",))
         elif c < 0.48:
-            evs.append(("s1f13",))
+            evs.append(("s1f13", rnd.random() < 0.75))
         elif c < 0.66:
             evs.append(("s1f14", rnd.choice([0, 0, 0, 1, 2, 63]), rnd.random() < 0.9))
         elif c < 0.78:
@@ -200,7 +203,7 @@ DIRECTED = [
 ]
 
 
-ALPHABET = [("linkup",), ("linkdown",), ("enable",), ("disable",), ("s1f13",), ("s1f14", 0, True), ("s1f14", 1, True), ("s1f14", 0, False),
+ALPHABET = [("linkup",), ("linkdown",), ("enable",), ("disable",), ("s1f13",), ("s1f13", False), ("s1f14", 0, True), ("s1f14", 1, True), ("s1f14", 0, False),
             ("other", True, True), ("other", False, True), ("other", True, False), ("t3",), ("delay",)]
 
 
@@ -281,6 +284,8 @@ def run(tier, replay=None):
     for host in (True, False):
         cases.append(("directed", host, [("enable",), ("setdelay", 3), ("linkup",), ("s1f14", 1, True), ("delay",), ("setdelay", 45), ("t3",), ("delay",), ("s1f14", 0, True)]))
         cases.append(("directed", host, [("setdelay", 2), ("enable",), ("linkup",), ("t3",), ("setdelay", 9), ("delay",), ("s1f14", 2, True)]))
+        # the application denies the peer's request: COMMACK 1 goes out, nothing is established; it accepts the next one
+        cases.append(("directed", host, [("enable",), ("linkup",), ("s1f13", False), ("other", True, True), ("s1f13", False), ("t3",), ("delay",), ("s1f13", True), ("other", True, True), ("s1f13", False)]))
     del DELAY_MISMATCH[:]
     wedged, kept, lits = [], [], []
     for c in cases:
